@@ -1,0 +1,25 @@
+// Copyright 2026 The Mellium Contributors.
+// Use of this source code is governed by the BSD 2-clause
+// license that can be found in the LICENSE file.
+
+//go:build verif
+
+// This file contains no code. It carries machine-checked contracts (lines
+// starting with "//@") read by the verification tooling.
+
+package component
+
+// C04: the component handshake reports every error of a read, write or
+// decode step; the ready and authenticated bits come with a nil error only
+// after the server's <handshake/> acknowledgement was read to its end.
+// Receiving connections panic by design (not implemented).
+//@ func Negotiator$1
+//@   maypanic
+//@   noswallow[C04]
+//@   ghost acked bool = false
+//@   callsite (hash.Hash).Write#*
+//@     ignore hash.Hash.Write never returns an error (documented)
+//@   callsite (*encoding/xml.Decoder).Skip#1
+//@     assert[C04] start.Name.Local == "handshake" && id != ""
+//@     after: acked = ret0 == nil
+//@   ensures[C04] err == nil ==> mask == xmpp.Ready | xmpp.Authn && acked
